@@ -1126,6 +1126,19 @@ impl Transaction {
             }
 
             //
+            // the signature only authorises inputs owned by the signing key
+            //
+            // (Bound slips carry an NFT identifier instead of an owner key)
+            //
+            let signer: SaitoPublicKey = self.from[0].public_key;
+            if self.from.iter().any(|slip| {
+                slip.amount > 0 && slip.slip_type != SlipType::Bound && slip.public_key != signer
+            }) {
+                error!("ERROR 582040: transaction spends an input that is not owned by its signer");
+                return false;
+            }
+
+            //
             // validate routing path sigs
             //
             // it strengthens censorship-resistance and anti-MEV properties in the network
